@@ -84,9 +84,19 @@ pub fn evaluate_expression(expr: &str, facts: &Facts) -> Result<Value> {
 fn find_operator(expr: &str, operators: &[char]) -> Option<usize> {
     let mut paren_depth = 0;
     let mut last_pos = None;
+    // Quote character of the string literal we are inside of, if any: operators inside a
+    // string literal (e.g. "n/a", "co-op") are part of the literal, not of the expression
+    let mut in_quotes: Option<char> = None;
 
     for (i, ch) in expr.char_indices() {
+        if let Some(quote) = in_quotes {
+            if ch == quote {
+                in_quotes = None;
+            }
+            continue;
+        }
         match ch {
+            '"' | '\'' => in_quotes = Some(ch),
             '(' => paren_depth += 1,
             ')' => paren_depth -= 1,
             _ if paren_depth == 0 && operators.contains(&ch) => {
